@@ -103,6 +103,25 @@ def apply_op(ctx, op, history_conventions, whole_case):
             return ("definition-differs", f"definition loaded from a rendering (ns={opts['ns']}, prefix={opts['prefix']}) "
                                           f"after {len(history_conventions) - 1} earlier loads differs from the model: {df}",
                     "definition-differs:" + df.split(":")[0].split("/")[-1].split("[")[0])
+        if opts.get("noise") and any(opts["noise"]):
+            # metamorphic: the same rendering without its comments / whitespace gives the same *raw* attributes (the
+            # canonical dump treats an empty unit or description like an absent one; the spelling must not decide which)
+            try:
+                plain = do_load(doc, dict(opts, noise=None), op.get("source", "bytesio"))
+            except Exception as e:
+                return ("load-raised", f"loading the rendering without its comments/whitespace raised {e!r}",
+                        "load-raised-plain:" + exc_sig(e))
+            for what, a, b in (("parameter type units", {n: t.unit for n, t in d.parameter_types.items()},
+                                {n: t.unit for n, t in plain.parameter_types.items()}),
+                               ("parameter descriptions", {n: (q.short_description, q.long_description) for n, q in d.parameters.items()},
+                                {n: (q.short_description, q.long_description) for n, q in plain.parameters.items()}),
+                               ("container descriptions", {n: (c.short_description, c.long_description) for n, c in d.containers.items()},
+                                {n: (c.short_description, c.long_description) for n, c in plain.containers.items()})):
+                if a != b:
+                    diffs = {n: (a.get(n), b.get(n)) for n in a if a.get(n) != b.get(n)}
+                    return ("noise-changes-definition", f"{what} differ between a rendering with comments/whitespace and "
+                                                        f"the same rendering without: {dict(list(diffs.items())[:3])}",
+                            "noise-changes-definition:" + what)
         return None
     # failing loads: whatever happens (usually an exception) must not influence later loads
     ctx.cls("history op: " + kind)
